@@ -539,6 +539,180 @@ def histories(tier):
     return [[list(r) for r in h] for h in hs]
 
 
+# ------------------------------------------------------------------ restrictions of the accepted credential: full option matrix
+KEY_OPTS = ['command="forced"', 'no-pty', 'no-agent-forwarding', 'no-X11-forwarding', 'no-port-forwarding',
+            'environment="A=1"', 'permitopen="target.example:80"']
+FROM_OPTS = [None, 'from="127.0.0.1"', 'from="10.9.9.9"', 'from="!127.0.0.1,*"', 'from="127.0.0.0/8"']
+
+
+def restrict_cases(tier):
+    out = []
+    for mask in range(1 << len(KEY_OPTS)):
+        opts = [o for i, o in enumerate(KEY_OPTS) if mask >> i & 1]
+        for frm in (FROM_OPTS if (tier == 'thorough' or mask in (0, 2, 127)) else FROM_OPTS[:1]):
+            out.append(('key', tuple(opts + ([frm] if frm else [])), None))
+    for pm in range(16):
+        permits = dict(zip(('permit_x11_forwarding', 'permit_agent_forwarding', 'permit_port_forwarding', 'permit_pty'),
+                           [bool(pm >> i & 1) for i in range(4)]))
+        for force in (None, 'cert-forced'):
+            for src in (None, ['127.0.0.0/8'], ['10.9.0.0/16']):
+                for line_opts in ((), ('no-pty',), ('command="forced"', 'no-agent-forwarding')):
+                    out.append(('cert', tuple(line_opts), (tuple(sorted(permits.items())), force, tuple(src) if src else None)))
+    return out
+
+
+def restrict_expect(case):
+    kind, opts, cert = case
+    o = set(opts)
+    auth = not ({'from="10.9.9.9"', 'from="!127.0.0.1,*"'} & o)
+    e = {'forced': 'forced' if 'command="forced"' in o else None, 'pty': 'no-pty' not in o, 'agent': 'no-agent-forwarding' not in o,
+         'x11': 'no-X11-forwarding' not in o, 'fwd': 'no-port-forwarding' not in o, 'env_A': '1' if 'environment="A=1"' in o else None,
+         'permitopen': 'permitopen="target.example:80"' in o}
+    if kind == 'cert':
+        permits, force, src = cert
+        permits = dict(permits)
+        if src and src[0].startswith('10.9'):
+            auth = False
+        if force:
+            e['forced'] = force         # the certificate's command takes precedence
+        e['pty'] = e['pty'] and permits['permit_pty']
+        e['agent'] = e['agent'] and permits['permit_agent_forwarding']
+        e['x11'] = e['x11'] and permits['permit_x11_forwarding']
+        e['fwd'] = e['fwd'] and permits['permit_port_forwarding']
+    e['auth'] = auth
+    e['direct_target'] = e['fwd']
+    e['direct_other'] = e['fwd'] and not e['permitopen']
+    e['listen'] = e['fwd']
+    return e
+
+
+def restrict_run(case):
+    kind, opts, cert = case
+    ukey, ca = P.key('c05-ruser'), P.key('c05-rca')
+    optstr = ','.join(opts)
+    if kind == 'key':
+        line = (optstr + ' ' if optstr else '') + ukey.export_public_key('openssh').decode()
+        crt = None
+    else:
+        permits, force, src = cert
+        crt = ca.generate_user_certificate(ukey, 'rid', principals=['carol'], force_command=force,
+                                           source_address=list(src) if src else None, **dict(permits))
+        line = 'cert-authority' + (',' + optstr if optstr else '') + ' ' + ca.export_public_key('openssh').decode()
+    env = {}
+
+    class Srv(P.RecServer):
+        def password_auth_supported(self):
+            return False
+
+        def connection_requested(self, dest_host, dest_port, orig_host, orig_port):
+            return True
+
+        def server_requested(self, listen_host, listen_port):
+            return True
+
+        def session_requested(self):
+            s = PtySession('srv')
+            env.setdefault('server_sessions', []).append(s)
+            return s
+
+    class PtySession(P.RecSession):
+        def pty_requested(self, term_type, term_size, term_modes):
+            self._ev('pty', term_type)
+            return True
+    w = H.SrvWorld(env=env, server_factory=Srv, sopts=dict(authorized_client_keys=asyncssh.import_authorized_keys(line + '\n'),
+                                                            x11_forwarding=True, agent_forwarding=True))
+    rp = w.rp
+    got = {}
+    try:
+        w.kex()
+        rp.send(rp.service_request())
+        w.flush()
+        sk = c16_raw(ukey)
+        if crt is None:
+            alg, blob = 'ssh-ed25519', ukey.public_data
+        else:
+            alg, blob = 'ssh-ed25519-cert-v01@openssh.com', crt.public_data
+        body = R.boolean(True) + R.string(alg) + R.string(blob)
+        signed = R.string(rp.session_id) + R.byte(R.MSG_USERAUTH_REQUEST) + R.string('carol') + R.string('ssh-connection') + \
+            R.string('publickey') + body
+        rp.send(rp.userauth_request('carol', 'publickey', body + R.string(R.string('ssh-ed25519') + R.string(sk.sign(signed)))))
+        w.flush()
+        got['auth'] = R.MSG_USERAUTH_SUCCESS in rp.types()
+        if not got['auth']:
+            return got, w.loop.unretrieved()
+        rp.send_dir.authed = rp.recv_dir.authed = True
+
+        def reply_to(fn):
+            n0 = len(rp.inbox)
+            fn()
+            w.flush()
+            return [t for t, _p in rp.inbox[n0:] if t in (R.MSG_CHANNEL_SUCCESS, R.MSG_CHANNEL_FAILURE, 81, 82, 91, 92)]
+        rp.send(rp.channel_open_session(sender=1))
+        w.flush()
+        conf = [p for t, p in rp.inbox if t == R.MSG_CHANNEL_OPEN_CONFIRMATION]
+        remote = R.Reader(conf[0], 5).u32()
+        got['pty'] = R.MSG_CHANNEL_SUCCESS in reply_to(lambda: rp.send(rp.channel_request(
+            remote, 'pty-req', True, R.string('xterm') + R.u32(80) + R.u32(24) + R.u32(0) + R.u32(0) + R.string(b'\0'))))
+        got['agent'] = R.MSG_CHANNEL_SUCCESS in reply_to(lambda: rp.send(rp.channel_request(remote, 'auth-agent-req@openssh.com', True)))
+        got['x11'] = R.MSG_CHANNEL_SUCCESS in reply_to(lambda: rp.send(rp.channel_request(
+            remote, 'x11-req', True, R.boolean(False) + R.string('MIT-MAGIC-COOKIE-1') + R.string('00' * 16) + R.u32(0))))
+        rp.send(rp.channel_request(remote, 'env', True, R.string('B') + R.string('client')))
+        w.flush()
+        rp.send(rp.channel_request(remote, 'exec', True, R.string('probe-cmd')))
+        w.flush()
+        sess = env.get('server_sessions', [None])[-1]
+        cmd = sess.chan.get_command() if sess is not None and sess.chan is not None else '?'
+        got['forced'] = None if cmd == 'probe-cmd' else cmd
+        got['env_A'] = sess.chan.get_environment().get('A') if sess is not None and sess.chan is not None else '?'
+
+        def direct(host, port, sender):
+            r = reply_to(lambda: rp.send(R.byte(R.MSG_CHANNEL_OPEN) + R.string('direct-tcpip') + R.u32(sender) + R.u32(2 ** 20) + R.u32(32768) +
+                                         R.string(host) + R.u32(port) + R.string('1.2.3.4') + R.u32(1234)))
+            n = len(w.loop.connect_log)
+            return any((h, p) == (host, port) for _k, (h, p), _ok in w.loop.connect_log if _k == 'tcp')
+        got['direct_target'] = direct('target.example', 80, 2)
+        got['direct_other'] = direct('other.example', 81, 3)
+        got['listen'] = 81 in reply_to(lambda: rp.send(R.byte(80) + R.string('tcpip-forward') + R.boolean(True) + R.string('127.0.0.1') + R.u32(18099)))
+        return got, w.loop.unretrieved()
+    finally:
+        w.close()
+
+
+def c16_raw(key):
+    from cryptography.hazmat.primitives import serialization as ser
+    return ser.load_ssh_private_key(key.export_private_key('openssh'), None)
+
+
+def restrict_worker(job):
+    acc = core.Acc()
+    for case in job:
+        want = restrict_expect(case)
+        try:
+            got, lexc = restrict_run(case)
+        except (R.RefError, Livelock, IndexError) as exc:
+            acc.violation('auth:harness:restrictions', repr(exc), {'kind': 'restrict', 'case': repr(case)})
+            continue
+        acc.add(core.digest(('restrict', case, tuple(sorted(got.items(), key=repr)))), transitions=len(got),
+                sample={'credential': case[0], 'authorized_keys_options': list(case[1]), 'certificate': repr(case[2])[:120], 'enforced': got}
+                if case[0] == 'cert' and case[1] and got.get('auth') and got.get('forced') == 'cert-forced' else None)
+        rep = {'kind': 'restrict', 'case': [case[0], list(case[1]), repr(case[2])]}
+        if got.get('auth') != want['auth']:
+            acc.violation('auth:%s:restrictions' % ('granted-without-credential' if got.get('auth') else 'valid-credential-rejected'),
+                          'credential %r: authenticated=%s, expected %s' % (case, got.get('auth'), want['auth']), rep)
+            continue
+        if not got.get('auth'):
+            continue
+        for k in ('forced', 'pty', 'agent', 'x11', 'env_A', 'direct_target', 'direct_other', 'listen'):
+            if k == 'x11' and not got.get(k):
+                continue        # granting X11 needs xauth, which is not installed here: only "never granted when forbidden"
+            if got.get(k) != want[k]:
+                acc.violation('auth:restriction-not-enforced:%s' % k, 'credential %r: %s is %r, the options say %r (all probes: %r)'
+                              % (case, k, got.get(k), want[k], got), rep)
+        if lexc:
+            acc.violation('auth:loop-exception:restrictions', repr(lexc[0].get('exception'))[:200], rep)
+    return acc
+
+
 # converse with real asyncssh clients ------------------------------------------------
 def converse():
     """A real asyncssh client with a valid credential is admitted (password, local key,
@@ -580,6 +754,8 @@ def main(tier, seed):
     acc = core.pmap(explore_history, core.rotate(jobs, seed), chunksize=8)
     shutil.rmtree(SCRATCH, ignore_errors=True)
     acc.merge(converse())
+    rc = restrict_cases(tier)
+    acc.merge(core.pmap(restrict_worker, [rc[i::32] for i in range(32)]))
     rule = ('every history of USERAUTH requests (alphabet: none/password right|wrong|other-user/'
             'publickey probe/publickey signed good|wrong session id|other user in signed blob|'
             'other signer|wrong service/malformed/channel-open probe, users alice|bob) of length '
@@ -587,7 +763,9 @@ def main(tier, seed):
             'schedule of pending validator futures, begin_auth futures, reload_config executor '
             'jobs and packet deliveries with at most `bound` deviations from FIFO; the same over a reduced '
             'alphabet against servers whose per-user keys come from an sshd-style configuration (%u / Match User); real clients: '
-            'what the server offers (5 keyboard-interactive styles, password, publickey) x what the client holds x 3 method orders; distinct = '
+            'what the server offers (5 keyboard-interactive styles, password, publickey) x what the client holds x 3 method orders; '
+            'restrictions: every subset of 7 authorized_keys options (+ from=) and every certificate permit/force-command/source-address '
+            'combination, probed with pty, agent, X11, env, exec, direct-tcpip x2 and tcpip-forward; distinct = '
             'distinct (history, schedule, outcome)')
     return core.finish(PROP, tier, seed, 'model_checking', acc, t0, rule,
                        {'deviation_bound': bound, 'histories': len(hs),
